@@ -40,7 +40,7 @@ PVD_CWD_ENV = "FCV_P6G_PVDCWD"  # set to 1: also run .pvd sequences with the cwd
 
 
 def pvd_cwd_optin() -> bool:
-    return os.environ.get(PVD_CWD_ENV, "") not in ("", "0")
+    return os.environ.get(PVD_CWD_ENV, "1") not in ("", "0")
 
 
 def disabled() -> bool:
